@@ -39,7 +39,7 @@ func TestC05(t *testing.T) {
 
 // C10: every signing terminates; idle members penalised.
 func TestC10(t *testing.T) {
-	prof := tssProfile{wDes: 12, wReset: 2, wReq: 18, wSig: 14, wSigAll: 16, wEnd: 28, wAct: 8, wOracle: 2}
+	prof := tssProfile{wDes: 12, wReset: 2, wReq: 18, wSig: 14, wSigAll: 16, wEnd: 28, wAct: 8, wOracle: 2, gov: true}
 	pbt.Check(t, "C10", func(rt *rapid.T) tssCase { return genTSSCase(rt, prof) }, func(c tssCase) *pbt.Verdict {
 		return runTSS(c, tssObs{c10: true}, func(w *tssWorld) bool {
 			partialTO := false
